@@ -289,6 +289,11 @@ def rule_argv_cells(prog, rep, unit='src/extensions/qaconf.c', rid='CU4'):
                 if l.get('kind') == 'DeclRefExpr' and 'cbdata' in (qtype(l) or ''):
                     if any(y.get('kind') == 'CallExpr' and prog.callee_name(y) in ('malloc', 'calloc') for y in walk(children(x)[1])):
                         recs.add((l.get('referencedDecl') or {}).get('name'))
+            elif x.get('kind') == 'VarDecl' and 'cbdata' in (qtype(x) or ''):
+                from .expr import var_init
+                i = var_init(x)
+                if i is not None and any(y.get('kind') == 'CallExpr' and prog.callee_name(y) in ('malloc', 'calloc') for y in walk(i)):
+                    recs.add(x.get('name'))
         if not recs:
             continue
         reads, _exits = _analyse(prog, f, recs, _flag_locals(f), summaries)
